@@ -145,7 +145,7 @@ func plansFor(thorough bool) []plan {
 	}
 	return []plan{
 		{stacks: bothStacks, maxSpell: 1, reps: 2, hdr: true,
-			histDepth: 2, histSpellings: []string{"exact"}, histStacks: bothStacks,
+			histDepth: 2, histSpellings: []string{"exact"}, histStacks: []string{"server"},
 			concW: []bool{false}, concStacks: bothStacks, concDur: 1500 * time.Millisecond},
 		{stacks: []string{"server"}, maxSpell: 2, reps: 2},
 	}
